@@ -14,6 +14,10 @@ add("C01","Bounded symbolic verification: real pyhf.Model construction and expec
     MODEL_NOTE+" The interpolation function itself is C03's subject (C01 applies the real interpolator to one isolated triple).",TECH,"DESIGN.md §3 C01")
 add("C02","Bounded symbolic verification: real Model.logpdf/mainlogpdf/constraint_logpdf/pdf/expected_auxdata/expected_data on the symbolic backend with parameters, main data and (independent) auxiliary data symbolic; the log-density term is decomposed into its Poisson/Normal log-term applications and every argument (datum position, mean, width/factor) is proved equal to the constraint list derived from the spec and measurement overrides; plus the lemma that numpy_backend's hand-written log-density bodies are the textbook formulas.",
     MODEL_NOTE,TECH+"; congruence by decomposition of uninterpreted log-density applications","DESIGN.md §3 C02")
+add("C10","Bounded symbolic verification: a model built with batch size N and the unbatched model are built from the same symbolic spec; for every row r, every entry of expected_data / expected_actualdata / per-sample rates and the log-density of the batched model is proved equal (for all values of all N rows of parameters and data) to the unbatched result on row r alone, which also shows rows cannot influence each other; batch-leading shapes and the sampled-data shape are checked with a sampler stub.",
+    MODEL_NOTE+" Sampler stub returns a fresh symbolic tensor of the documented shape.",TECH,"DESIGN.md §3 C10")
+add("C12","Bounded symbolic verification: slice registration is executed with symbolic parameter-set sizes (all sizes at once); whole models from the shape family are checked for tiling of parameter and channel slices, suggestion lengths, auxdata layout and defaults; measurement overrides (inits, bounds, fixed, auxdata, sigmas, factors) enter as fresh symbols and are proved to appear verbatim in the suggestions, config.auxdata and the constraint terms; Workspace.data / Workspace.build -> model()/data() round trip with symbolic observations; caller specs are compared leaf-by-leaf for mutation; every permutation (length<=3) of channel/sample/modifier/parameter/observation lists yields identical layout and identical logpdf/expected_data terms.",
+    MODEL_NOTE,TECH,"DESIGN.md §3 C12")
 m={"version":1,"setup_cmd":"./setup.sh",
  "hooks":{"guard":"PYHF_VERIF","enable":"not needed: instrumentation is harness-side (custom tensor backend via pyhf.set_backend; module-attribute stubs)","baseline_off_cmd":BASE,"source_commits":[],"add_only":True},
  "engines":[{"name":"pyhf_smt","path":"pyhf_smt/","serves_properties":[c["property_id"] for c in checks],"kind_free_text":"symbolic tensor backend (z3 Real terms in numpy object arrays) + forking path explorer + cell-wise SMT equivalence + concrete replay"}],
